@@ -54,6 +54,56 @@ pub fn c11(opts: &Opts, out: &mut Out, ped_labels: &[Vec<u8>]) {
                 let ins: Vec<String> = table.iter().map(|p| hex(&inputs[&p.single_id().unwrap()])).collect();
                 out.req(format!("tableorder bits={} cap={}", bits, cap), format!("ins={}", ins.join(",")));
             }
+            // the public iterators as iterators: however they are driven (nth, skip, step_by, after partial consumption,
+            // from the back of a `take`), position k yields generator k
+            {
+                let gs: Vec<RistrettoPoint> = rp.gi_base_iter().cloned().collect();
+                let hs_: Vec<RistrettoPoint> = rp.hi_base_iter().cloned().collect();
+                let total = gs.len();
+                let mut proto_ok = true;
+                let mut why = String::new();
+                for consumed in [0usize, 1, bits.saturating_sub(1), bits, bits + 1, total / 2 + 1] {
+                    for jump in [0usize, 1, 2, 3, bits.saturating_sub(1), bits, bits + 1, 2 * bits + 1, total] {
+                        if consumed > total {
+                            continue;
+                        }
+                        let its: Vec<(&str, &Vec<RistrettoPoint>, Box<dyn Iterator<Item = &RistrettoPoint> + '_>)> =
+                            vec![("G", &gs, Box::new(rp.gi_base_iter())), ("H", &hs_, Box::new(rp.hi_base_iter()))];
+                        for (name, all, mut it) in its {
+                            for _ in 0..consumed {
+                                it.next();
+                            }
+                            let got = it.nth(jump).cloned();
+                            let want = all.get(consumed + jump).cloned();
+                            if got != want && proto_ok {
+                                proto_ok = false;
+                                why = format!("{} iterator: after {} items, nth({}) is not generator {}", name, consumed, jump, consumed + jump);
+                            }
+                            // and what follows the jump
+                            let got2 = it.next().cloned();
+                            let want2 = all.get(consumed + jump + 1).cloned();
+                            if want.is_some() && got2 != want2 && proto_ok {
+                                proto_ok = false;
+                                why = format!("{} iterator: item after nth({}) (after {} items) is not generator {}", name, jump, consumed, consumed + jump + 1);
+                            }
+                        }
+                    }
+                }
+                for stride in [1usize, 2, 3, 5, bits + 1] {
+                    let a: Vec<RistrettoPoint> = rp.gi_base_iter().step_by(stride).cloned().collect();
+                    let b: Vec<RistrettoPoint> = gs.iter().step_by(stride).cloned().collect();
+                    let mut it = rp.hi_base_iter();
+                    it.next();
+                    let c: Vec<RistrettoPoint> = it.step_by(stride).cloned().collect();
+                    let d: Vec<RistrettoPoint> = hs_.iter().skip(1).step_by(stride).cloned().collect();
+                    if (a != b || c != d) && proto_ok {
+                        proto_ok = false;
+                        why = format!("step_by({}) over the public iterator differs from the collected generators", stride);
+                    }
+                }
+                let cnt_ok = rp.gi_base_iter().count() == total && rp.hi_base_iter().skip(3).count() == total.saturating_sub(3) && rp.gi_base_iter().last() == gs.last();
+                out.oracle("C11:iterator-protocol", proto_ok && cnt_ok, &key, &why);
+            }
             classes.insert((bits, cap));
         }
     }
